@@ -26,7 +26,7 @@ func init() {
 			"(default: an error record reached the logger), every well-behaved handler's count equals the number of events sent, later markers are reached (dead-state proof otherwise), the process is alive. " +
 			"Hostile mode: 150..300 probes per session shaped after what the built-in and state-tracking handlers expect (CAP, 353, 352, MODE, 324/332/311/671, membership verbs, registration numerics, CTCP) with hostile tokens, user handlers that query capabilities and the tracker on those verbs, tracking on/off; " +
 			"whenever the recovery function reports a built-in handler's panic, every later numbered event must still reach the user handlers (dead-state proof otherwise). " +
-			"Teardown-panic rounds: the victim panics after the link dropped / Close was called while it was running; DISCONNECTED, the recovery function and the next connection's events are still owed. Every other custom recovery function is installed through Config() after Connect. A parked background handler also sits on a verb without foreground handlers; in hostile mode CONNECTED is owed for every dispatched 001. A foreground handler removes one of the parked background handlers half-way through; in virtual time (TestC16NoDelay) the last of a burst of events next to 1..4 parked background handlers reaches its foreground handler after 0 s. distinct_nontrivial = distinct (victim kind, panic value kind, recovery kind, parked>0, GOMAXPROCS) cells in which a panic was actually thrown and recovered.",
+			"Teardown-panic rounds: the victim panics after the link dropped / Close was called while it was running; DISCONNECTED, the recovery function and the next connection's events are still owed. Every other custom recovery function is installed through Config() after Connect. A parked background handler also sits on a verb without foreground handlers; in hostile mode CONNECTED is owed for every dispatched 001. A foreground handler removes one of the parked background handlers half-way through; in virtual time (TestC16NoDelay) the last of a burst of events next to 1..4 parked background handlers reaches its foreground handler after 0 s. The custom recovery function takes its time over the panic of a foreground victim (sleep or yields): no foreground handler of a later event may start before it has returned. distinct_nontrivial = distinct (victim kind, panic value kind, recovery kind, parked>0, GOMAXPROCS) cells in which a panic was actually thrown and recovered.",
 		Assumptions: []string{"for panic(nil) the recovered value depends on GODEBUG panicnil; only continued delivery is judged for it", "parked background handlers are released at the end of each session"},
 		Plan: func(tier string, seed int64) []Batch {
 			var bs []Batch
